@@ -432,7 +432,8 @@ pub fn generate(rng: &mut Rng, o: &GenOpts) -> Gen {
                 cfg.conditional_edge(h, ts[1], nc).unwrap();
             }
             _ => {
-                let s = pool[rng.usize(pool.len())].clone();
+                let wide: Vec<&Scalar> = pool.iter().filter(|s| s.bits() >= 2).collect();
+                let s = if wide.is_empty() { pool[rng.usize(pool.len())].clone() } else { wide[rng.usize(wide.len())].clone() };
                 let w = s.bits();
                 if w == 1 {
                     // 1-bit scalar: use a 2-way split and drop the third edge
